@@ -231,25 +231,32 @@ def ask_join(run, f, sp):
         msg = sp.resolve_to_root_param(b, a[1])
         ok_call = who[0] == "param" and who[2] == 1 and msg[0] == "param" and msg[2] == 2
     run.require(ok_call, "O3.5", "ask_join-calls-ask", "ask_join does not call self.ask(msg) exactly once", "calls self.ask(msg) once")
-    # Ok(try_ok(map_err(await(try_ok(await ask)), closure Join)))
+    # J = the awaited JoinHandle: await(try_ok(await(self.ask(msg)))).  Accepted result shapes:
+    #   Ok(J.map_err(|e| Error::Join{..})?)                  and   match J { Ok(v) => Ok(v), Err(e) => Err(Error::Join{source: e}) }
+    def is_J(t):
+        t = norm_try(tr, t)
+        if t[0] == "await" and t[1][0] == "try_ok":
+            inner = strip_wrappers(t[1][1])
+            return inner[0] == "await" and asks and strip_wrappers(inner[1]) == ("call", asks[0].idx, "actor_ref::ActorRef::<T>::ask")
+        return False
     oks = [t for t in subterms(ret) if t[0] == "agg" and t[1][:3] == ("adt", "std::result::Result", "Ok")]
     good = False
     for t in oks:
         v = t[2][0]
         if v[0] == "try_ok":
             c = strip_wrappers(v[1])
-            if c[0] == "call" and c[2].endswith("map_err"):
-                a0 = norm_try(tr, tr.call_args(c[1])[0])
-                if a0[0] == "await" and a0[1][0] == "try_ok":
-                    inner = strip_wrappers(a0[1][1])
-                    if inner[0] == "await" and strip_wrappers(inner[1]) == ("call", asks[0].idx, "actor_ref::ActorRef::<T>::ask"):
-                        good = True
+            if c[0] == "call" and c[2].endswith("map_err") and is_J(tr.call_args(c[1])[0]):
+                good = True
+        v = strip_wrappers(v)
+        if v[0] == "field" and v[1] == 0 and v[2][0] == "downcast" and v[2][1] == "Ok" and is_J(v[2][2]):
+            good = True
     run.require(good, "O3.5", "ask_join-returns-task-output", "ask_join does not return Ok(<output of awaiting the JoinHandle returned by ask>): %s" % show(ret),
-                "Ok(self.ask(msg).await?.await.map_err(Join)?)")
+                "Ok(<output of the awaited JoinHandle that self.ask(msg).await? returned>)")
     joins = [(s, fl) for s, v, fl, _ in sp.errors if v == "Join"]
     okj = len(joins) == 1 and joins[0][0].root == "actor_ref::ActorRef::<T>::ask_join"
     if okj:
         s, fl = joins[0]
         src = strip_wrappers(fl.get("source"))
-        okj = src[0] == "param" and src[1] == 2 and s.body.local_ty(2).is_adt("tokio::task::JoinError")
+        okj = (src[0] == "param" and src[1] == 2 and s.body.local_ty(2).is_adt("tokio::task::JoinError")) or \
+              (src[0] == "field" and src[1] == 0 and src[2][0] == "downcast" and src[2][1] == "Err" and is_J(src[2][2]))
     run.require(okj, "O3.5", "join-error-mapped", "Error::Join is not built from the JoinError of the awaited task", "Error::Join{source: <the JoinError>}")
